@@ -267,8 +267,8 @@ def first_json_diff(a, b, path=""):
     return None
 
 
-TIERS = {"quick": {"W1": ("rev", 10, True), "W2": ("default", 6, False), "W3": ("default", 10, True), "W4": ("default", 3, False)},
-         "thorough": {"W1": ("rev", 200, True), "W2": ("rev", 200, True), "W3": ("rev", 200, True), "W4": ("default", 40, True)}}
+TIERS = {"quick": {"W1": ("rev", 10, True), "W1f": ("default", 4, False), "W2": ("default", 6, False), "W3": ("default", 10, True), "W4": ("default", 3, False)},
+         "thorough": {"W1": ("rev", 200, True), "W1f": ("rev", 40, True), "W2": ("rev", 200, True), "W3": ("rev", 200, True), "W4": ("default", 40, True)}}
 
 
 def make_tasks(tier):
